@@ -306,16 +306,22 @@ def _replay_colors(fn, n):
 
 
 # ---------------------------------------------------------------- density_scatter(discrete)
-def _body_scatter(n):
+def _body_scatter(n, lo=0, hi=1, half=False, arrays=False):
     def body():
         from pyrepseq import plotting
         from models import plot_model
         from models.plot_model import Recorder
         from vlib import sym, symops as so
-        xs = [sym.sym_int(f"x{i}", 0, 1) for i in range(n)]
-        ys = [sym.sym_int(f"y{i}", 0, 1) for i in range(n)]
+        xs = [sym.sym_int(f"x{i}", lo, hi) for i in range(n)]
+        ys = [sym.sym_int(f"y{i}", lo, hi) for i in range(n)]
+        if half:      # a half-integer grid is discrete data too
+            xs, ys = [so.mul(x, 0.5) for x in xs], [so.mul(y, 0.5) for y in ys]
         plot_model.reset()
-        plotting.density_scatter(list(xs), list(ys), ax=Recorder("ax"), discrete=True)
+        if arrays:
+            from models import np_model
+            plotting.density_scatter(np_model.array(list(xs)), np_model.array(list(ys)), ax=Recorder("ax"), discrete=True)
+        else:
+            plotting.density_scatter(list(xs), list(ys), ax=Recorder("ax"), discrete=True)
         sc = [c for c in plot_model.CALLS if c[0] == "ax.scatter"]
         if len(sc) != 1:
             return False, "one scatter call expected"
@@ -333,18 +339,24 @@ def _body_scatter(n):
     return body
 
 
-def _replay_scatter(n):
+def _replay_scatter(n, half=False, arrays=False):
     def replay(inputs):
         import collections
         import matplotlib
         matplotlib.use("Agg")
         import matplotlib.pyplot as plt
+        import numpy as np
         from pyrepseq import plotting
-        xs, ys = [int(inputs[f"x{i}"]) for i in range(n)], [int(inputs[f"y{i}"]) for i in range(n)]
+        f = 0.5 if half else 1
+        xs, ys = [int(inputs[f"x{i}"]) * f for i in range(n)], [int(inputs[f"y{i}"]) * f for i in range(n)]
         fig, ax = plt.subplots()
-        plotting.density_scatter(xs, ys, ax=ax, discrete=True)
+        if arrays:
+            plotting.density_scatter(np.array(xs), np.array(ys), ax=ax, discrete=True)
+        else:
+            plotting.density_scatter(list(xs), list(ys), ax=ax, discrete=True)
         coll = ax.collections[0]
-        pts = [tuple(map(int, p)) for p in coll.get_offsets()]
+        pts = [tuple(float(v) for v in p) for p in coll.get_offsets()]
+        xs, ys = [float(v) for v in xs], [float(v) for v in ys]
         z = [int(v) for v in coll.get_array()]
         plt.close(fig)
         want = collections.Counter(zip(xs, ys))
@@ -448,6 +460,10 @@ def conditions(tier):
             out.append(Condition(f"C19/{fn}/n={n}", _body_colors(fn, n), _replay_colors(fn, n), budget=900 if not T else 3000, models=M,
                                  bounds=f"{n} symbolic labels, symbolic min_count, every shuffle outcome"))
     out.append(Condition("C19/density_scatter/n=3", _body_scatter(3), _replay_scatter(3), budget=600, models=M, bounds="3 symbolic points"))
+    out.append(Condition("C19/density_scatter/n=3/signed-arrays", _body_scatter(3, -2, 2, arrays=True), _replay_scatter(3, arrays=True), budget=600, models=M,
+                         bounds="3 symbolic points with integer coordinates -2..2, given as arrays"))
+    out.append(Condition("C19/density_scatter/n=2/half-integer-arrays", _body_scatter(2, -1, 3, half=True, arrays=True), _replay_scatter(2, half=True, arrays=True),
+                         budget=600, models=M, bounds="2 symbolic points on a half-integer grid (-0.5 .. 1.5), given as arrays"))
     for single in (False, True):
         out.append(Condition("C19/similarity_clustermap/" + ("single" if single else "paired"), _body_scm(single), _replay_scm(single),
                              budget=600, models=M, setup=_setup, bounds="3-row table, free one-letter CDR3s"))
